@@ -224,6 +224,13 @@ func corruptions(r *rand.Rand, v identity, all bool) []identity {
 		}
 		add("easing", fmt.Sprintf("%d", ev), func(c *identity) { c.easing = ev })
 	}
+	for bit := 0; bit < 64; bit++ {
+		if !all && bit%3 != 0 && bit < 48 {
+			continue
+		}
+		b := uint(bit)
+		add("easing", fmt.Sprintf("bit%d", b), func(c *identity) { c.easing ^= 1 << b })
+	}
 	if v.easing > 0 {
 		add("easing", "minus1", func(c *identity) { c.easing-- })
 		add("easing", "zero", func(c *identity) { c.easing = 0 })
@@ -407,6 +414,107 @@ func (vc *victim) routeTo(ip netip.Addr) bool {
 		}
 	}
 	return false
+}
+
+// peeringKnown: a router completes the first two handshake messages honestly with the victim (which thereby stores
+// its record), then connects again presenting the same address with one field of its record corrupted - signed
+// with its real private key, which is what the frame signature is checked against. The record is invalid, so the
+// victim must answer with an error (or hang up), never with a normal response.
+func peeringKnown(res *core.Result, r *rand.Rand, idV *m.Address, v identity) bool {
+	if v.priv == nil || v.easing != 0 {
+		return true
+	}
+	victimR := wire.NewRouter(idV, config.Router{})
+	attacker := validIdentity(r, v.hash, 0)
+	variants := []identity{v}
+	for _, c := range []func(*identity){
+		func(c *identity) { c.hash = "NOPE"; c.class = "hash-unknown" },
+		func(c *identity) { c.hash = ""; c.class = "hash-empty" },
+		func(c *identity) { c.ktype = "RSA"; c.class = "keytype-unknown" },
+		func(c *identity) { c.easing = 7; c.class = "easing-changed" },
+		func(c *identity) { c.key = attacker.key; c.class = "another-real-key" },
+		func(c *identity) { c.key = c.key[:31]; c.class = "key-truncated" },
+		func(c *identity) { c.key = nil; c.class = "no-key" },
+	} {
+		cv := v
+		cv.key = append([]byte(nil), v.key...)
+		cv.field = "known-router-record"
+		c(&cv)
+		variants = append(variants, cv)
+	}
+	for k, id := range variants {
+		req := map[string]any{"v": "v0.0.0", "a": id.public(), "c": core.RandBytes(r, 32), "lv": 1, "tmtu": 9000}
+		body, err := cbor.Marshal(req)
+		if err != nil {
+			continue
+		}
+		f, err := victimR.Inst.BuilderV.NewFrameV1(v.ip, m.RouterAddress, frame.RouterPing, nil, body, nil)
+		if err != nil {
+			continue
+		}
+		f.SetTTL(0)
+		f.SetSequenceTime(time.Now().Round(time.Millisecond).Add(-time.Millisecond))
+		_ = f.SignRaw(v.priv)
+		f.SetTTL(1)
+		fd, _ := f.FrameDataWithMargins(0, 0)
+		msg := make([]byte, 2+len(fd))
+		binary.BigEndian.PutUint16(msg, uint16(len(msg)))
+		copy(msg[2:], fd)
+		f.ReturnToPool()
+		w := wire.New()
+		done := make(chan error, 1)
+		go func() {
+			_, err := victimR.Inst.PeeringV.VerifSetupLink(w.B, wire.URL, false)
+			done <- err
+		}()
+		w.Inject(wire.AtoB, msg)
+		deadline := time.Now().Add(10 * time.Second)
+		for w.SentCount(wire.BtoA) < 2 && time.Now().Before(deadline) && len(done) == 0 {
+			time.Sleep(200 * time.Microsecond)
+		}
+		// the victim's second message: a response (carries a challenge echo / key material) or an error
+		normal := false
+		if sent := w.SentIn(wire.BtoA); len(sent) >= 2 && len(sent[1].Data) > 2+51 {
+			if pf, err := victimR.Inst.BuilderV.ParseFrame(append([]byte(nil), sent[1].Data[2:]...), nil, 0); err == nil {
+				var resp struct {
+					C   []byte `cbor:"c,omitempty"`
+					KX  []byte `cbor:"kx,omitempty"`
+					Err string `cbor:"err,omitempty"`
+				}
+				if cbor.Unmarshal(pf.MessageData(), &resp) == nil && resp.Err == "" && len(resp.C) > 0 {
+					normal = true
+				}
+				pf.ReturnToPool()
+			}
+		}
+		w.A.Close()
+		w.B.Close()
+		var serr error
+		select {
+		case serr = <-done:
+		case <-time.After(10 * time.Second):
+		}
+		if serr != nil && strings.Contains(serr.Error(), "panic") {
+			res.Violate("crash:peering-request", fmt.Sprintf("a peering request of a known router panicked the setup worker (%v): %s", serr, id), map[string]any{"identity": id.String(), "entry": "peering-request-known"})
+			return false
+		}
+		if k == 0 {
+			if !normal {
+				return true // honest first contact did not get a response here: nothing learned, nothing to judge
+			}
+			res.Count("known_victim_learned_honest_owner", 1)
+		} else {
+			if normal {
+				res.Violate("corrupt-identity-accepted:peering-request:known-router:"+id.class,
+					fmt.Sprintf("a router that already knows %s answered a peering request presenting that address with a corrupted record (%s) with a normal response instead of refusing it", v.ip, id.class),
+					map[string]any{"identity": id.String(), "entry": "peering-request-known", "case_id": "known|peering|" + id.class})
+				return false
+			}
+			res.Case("peering-known|"+id.class+"|"+v.hash, true)
+		}
+		time.Sleep(3 * time.Millisecond) // later signed timestamp for the next connection
+	}
+	return true
 }
 
 // knownThenForged: the victim first learns the honest owner v of an address at the given entry point, then the
@@ -788,6 +896,9 @@ func run(c *core.Ctx) {
 				} else if res.ViolationCount() > 0 {
 					return
 				}
+			}
+			if i%3 == 0 && !peeringKnown(res, r, idV, v) {
+				return
 			}
 			for _, entry := range []string{"hop-record", "ping-header"} {
 				if acc, ok := knownThenForged(res, r, idV, [2]*m.Address{origin, origin2}, v, entry); ok {
